@@ -15,17 +15,62 @@ package main
 import (
 	"bytes"
 	"fmt"
+	"go/ast"
+	"path/filepath"
 	"reflect"
+	"sort"
+	"strings"
 	"time"
 
 	libaudit "github.com/elastic/go-libaudit/v2"
 	"github.com/elastic/go-libaudit/v2/auparse"
 )
 
+var reasmRoot *pkg
+
 func init() {
 	generators = append(generators, func(repo string, root *pkg) {
+		reasmRoot = root
 		runGen("genReasmFacts", []string{"ReasmFacts"}, func() { genReasmFactsImpl() })
 	})
+}
+
+// clockStrips lists, for reassembler.go, every call on a time.Time value of a method that gives up the monotonic clock
+// reading or turns the time into a number (UTC, Local, In, Round, Truncate, Unix, UnixNano, UnixMilli, UnixMicro,
+// Format, String, MarshalX, AddDate): "function: method". A deadline is compared on the monotonic clock only if both
+// sides still carry the reading; a `time.Now().UTC()` on either side makes it a wall-clock comparison, which no
+// history a check may produce (it must not step the system clock) tells from the right one.
+func clockStrips(root *pkg) []string {
+	strips := map[string]bool{"UTC": true, "Local": true, "In": true, "Round": true, "Truncate": true, "Unix": true, "UnixNano": true, "UnixMilli": true, "UnixMicro": true,
+		"Format": true, "String": true, "AddDate": true, "MarshalBinary": true, "MarshalText": true, "MarshalJSON": true, "GobEncode": true, "Zone": true, "ZoneBounds": true}
+	var out []string
+	for _, f := range root.files {
+		if filepath.Base(root.fset.Position(f.Pos()).Filename) != "reassembler.go" {
+			continue
+		}
+		for _, d := range f.Decls {
+			fd, ok := d.(*ast.FuncDecl)
+			if !ok || fd.Body == nil {
+				continue
+			}
+			ast.Inspect(fd.Body, func(n ast.Node) bool {
+				call, ok := n.(*ast.CallExpr)
+				if !ok {
+					return true
+				}
+				sel, ok := call.Fun.(*ast.SelectorExpr)
+				if !ok || !strips[sel.Sel.Name] {
+					return true
+				}
+				if tv, ok := root.info.Types[sel.X]; ok && tv.Type != nil && strings.TrimPrefix(tv.Type.String(), "*") == "time.Time" {
+					out = append(out, fd.Name.Name+": "+sel.Sel.Name)
+				}
+				return true
+			})
+		}
+	}
+	sort.Strings(out)
+	return out
 }
 
 type lifeStream struct {
@@ -247,6 +292,17 @@ func genReasmFactsImpl() {
 			b.WriteString(", ")
 		}
 		fmt.Fprintf(&b, "%v", m)
+	}
+	b.WriteString("]\n")
+	b.WriteString("/-- calls in reassembler.go that strip the monotonic reading from a time.Time or turn it into a number (function: method) -/\n")
+	b.WriteString("def clockStrips : List String := [")
+	if reasmRoot != nil {
+		for i, s := range clockStrips(reasmRoot) {
+			if i > 0 {
+				b.WriteString(", ")
+			}
+			fmt.Fprintf(&b, "%q", s)
+		}
 	}
 	b.WriteString("]\n")
 	b.WriteString("end LA.Gen.ReasmFacts\n")
